@@ -891,6 +891,12 @@ def format_time_signature_list(value: MatchTimeSignature) -> str:
     return str(value)
 
 
+def format_time_signature_or_list(value: MatchTimeSignature) -> str:
+    """A single time signature plainly, several as a list (so that none is lost)"""
+    value.is_list = bool(value.other_components)
+    return str(value)
+
+
 class MatchTempoIndication(MatchParameter):
     def __init__(
         self,
